@@ -26,14 +26,14 @@ def deep_inputs(ck):
 
 def run(ck):
     bindir, model = K.setup(ck)
-    n = 2500 if ck.quick else 80000
+    n = 5000 if ck.quick else 80000
     corr = [T.gen_case(ck.rng) for _ in range(n)]
     K.correspondence(ck, bindir, model, corr, "tokenizers")
     e1, f1 = K.totality_oracle(ck, bindir, corr, "tokenizer")
     # junk and pathological inputs through the tokenizers in every start state
     r = ck.rng
     junk = []
-    for _ in range(1500 if ck.quick else 50000):
+    for _ in range(3000 if ck.quick else 50000):
         s = T.gen_junk(r)
         for st in r.sample(T.HTML_STATES, 2):
             junk.append(T.mk_case("h", r.choice(T.chunkings(r, s, 1)), exact=r.random() < 0.5, state=st, foreign=r.random() < 0.5,
@@ -46,7 +46,7 @@ def run(ck):
             "html:textarea", "html:plaintext", "html:frameset", "html:head", "html:html", "html:body", "html:caption",
             "html:colgroup", "html:tbody", "html:option", "html:noscript", "html:style", "svg:svg", "svg:title", "svg:foreignObject",
             "math:math", "math:mi", "math:annotation-xml", "html:iframe", "html:xmp", "html:noembed", "html:noframes"]
-    ins = K.gen_inputs(ck, 600 if ck.quick else 20000, "h")
+    ins = K.gen_inputs(ck, 1200 if ck.quick else 20000, "h")
     for s in ins:
         ch = r.choice(T.chunkings(r, s, 1))
         tcases.append(K.htree_case(ch, exact=int(r.random() < 0.3), scripting=int(r.random() < 0.5), srcdoc=int(r.random() < 0.2),
